@@ -312,12 +312,20 @@ def target_rows(draw, sysd, kinds, nrows=(1, 4), margin=(0.05, 0.45)):
             mg = draw(st.floats(0.05, 0.45))
             u = np.asarray(draw(gens.array((n,), mg, 1.0 - mg, styles=("raw",))))
             x = sv.lb + u * sv.range
-            f = draw(st.floats(1.5, 20.0))
+            f = draw(st.floats(1.5, 6.0))
             b = sv.basep + f * (sv.predict(x) - sv.basep) + draw(st.floats(0.0, 1.0)) * sv.extent
             rows.append(dict(b=b.tolist(), kind="scaled_out"))
         else:  # random finite vector in [1, 100]^m-ish
             b = np.asarray(draw(gens.array((m,), 0.0, 100.0, styles=("raw", "int"))))
             rows.append(dict(b=b.tolist(), kind="random"))
+    # well-scaled regime: targets stay within ~1..100 capture units (out-of-gamut ones are pulled back towards the baseline)
+    for r in rows:
+        if r["kind"] in ("outside", "scaled_out", "near_out"):
+            b = np.asarray(r["b"], dtype=float)
+            top = float(np.max(np.abs(b - sv.basep)))
+            cap = max(150.0, 1.5 * sv.extent)
+            if top > cap:
+                r["b"] = (sv.basep + (b - sv.basep) * (cap / top)).tolist()
     return rows
 
 
